@@ -639,3 +639,34 @@ def _run_bitproto(E, A):
             E.oblige("post:-F %r stays present" % val, z3.BoolVal(bool(got.get("filter_messages"))))
     finally:
         M.main, sys.argv = saved_main, saved_argv
+
+
+@gproof("py:renderer_h.BlockMessageStruct.after", "compiler/bitproto/renderer/impls/c/renderer_h.py", "BlockMessageStruct.after", ["C13", "C08"],
+        must=["post:"], calls=["Proto.get_option_as_int_or_raise", "Block.push / push_string"])
+def _struct_after(E, A):
+    """the value of option c.struct_packing_alignment (whatever expression it was evaluated from) is the one used: for every value
+    0..8 the struct is closed with `}` followed by __attribute__((packed, aligned(<that value>))) exactly when the value is not 0,
+    and by `;`"""
+    from bitproto.renderer.impls.c import renderer_h as RH
+    asked = []
+    for v in range(0, 9):
+        out = []
+
+        class Bound:
+            def get_option_as_int_or_raise(self, name, v=v):
+                asked.append(name)
+                return v
+
+        class Blk(RH.BlockMessageStruct):           # the real method on an object whose surroundings (context, buffer) are stubs
+            bound = Bound()
+        blk = Blk.__new__(Blk)
+        blk.push = lambda s, **kw: out.append(("line", s))
+        blk.push_string = lambda s, **kw: out.append(("str", s, kw.get("separator")))
+        try:
+            RH.BlockMessageStruct.after(blk)
+        except AttributeError as e:
+            raise EN.Unsupported("BlockMessageStruct.after needs more of the block than the stub provides: %r" % (e,))
+        text = "".join(x[1] for x in out)
+        want = "}" + ("__attribute__((packed, aligned(%d)))" % v if v > 0 else "") + ";"
+        E.oblige("post:alignment=%d%s" % (v, "" if text == want else " (emitted %r)" % text), z3.BoolVal(text == want))
+    E.oblige("post:option-name", z3.BoolVal(bool(asked) and all(a == "c.struct_packing_alignment" for a in asked)))
